@@ -817,47 +817,63 @@ def check_tables(c, rx, rec, refs, text, V, cnt):
                 V.append(violation('table-coolant-height', ca, 'peak height is not the first plane attaining the maximum',
                                    row[8], exp, 'print precision %d dp' % M['dp'], site='table.py:CoolantTempTable.make'))
             cnt('sweep_checks', 'table_cells_compared', 4)
-    # ---- ducts: one row per wall of the final region (face temperatures are final-plane fields)
+    # ---- ducts.  What the statement needs: the peak (and height) of EVERY physical duct wall of the
+    # assembly is reported under that wall's number (1 = innermost), and the face temperatures printed
+    # in a row are the final-plane means of that same wall (placeholders if the wall is absent there).
     M = meta['duct']
     rows = tabs['duct']
-    want_rows = sum(len(refs[ai][1][rec[ai]['planes'][-1]['ridx']]) for ai in range(nasm))
-    if rows is None or len(rows) != want_rows:
-        V.append(violation('table-missing', dict(c, table='duct'), 'duct temperature table absent or short',
-                           None if rows is None else len(rows), want_rows, site='table.py:DuctTempTable.make'))
+    if rows is None:
+        V.append(violation('table-missing', dict(c, table='duct'), 'duct temperature table absent',
+                           site='table.py:DuctTempTable.make'))
+        rows = []
+        nasm_d = 0
     else:
-        k = 0
-        for ai in range(nasm):
-            ref, dmap, N = refs[ai]
-            last = rec[ai]['planes'][-1]
-            rmap = dmap[last['ridx']]
-            for d, g in enumerate(rmap):
-                ca = dict(c, asm=ai, table='duct', row=d, physical_duct=g, walls_final_region=len(rmap), walls_asm=N)
-                row = rows[k]
-                k += 1
-                if row[0] != str(ai + 1) or row[2] != str(d + 1):
-                    V.append(violation('table-row-order', ca, 'row label', [row[0], row[2]], [str(ai + 1), str(d + 1)]))
-                    continue
-                fm = face_means([float(x) for x in last['duct'][d]])
+        nasm_d = nasm
+    for ai in range(nasm_d):
+        ref, dmap, N = refs[ai]
+        last = rec[ai]['planes'][-1]
+        rmap = dmap[last['ridx']]
+        mine = [rw for rw in rows if rw[0] == str(ai + 1)]
+        ca = dict(c, asm=ai, table='duct', walls_final_region=len(rmap), walls_asm=N)
+        exp_peaks = [[str(g + 1), _cell(M, ref.duct[g][0]), _cell(M, ref.duct[g][1])] for g in range(N)]
+        got_peaks = [[rw[2], rw[9], rw[10]] for rw in mine]
+        if len(mine) != N:
+            if len(rmap) < N and len(mine) == len(rmap):
+                V.append(violation('table-duct-slot', ca,
+                                   'assembly with %d duct walls whose outlet region has %d: the table prints %d row(s); '
+                                   'the row carrying the outlet face temperatures of wall %d shows the peak of wall 1, '
+                                   'and the peak of wall %d is not reported' % (N, len(rmap), len(mine), rmap[0] + 1, N),
+                                   got_peaks, exp_peaks, 'print precision %d dp' % M['dp'],
+                                   site='table.py:DuctTempTable.make'))
+            else:
+                V.append(violation('table-missing', ca, 'duct temperature table has %d rows for an assembly with %d '
+                                   'walls' % (len(mine), N), got_peaks, exp_peaks, site='table.py:DuctTempTable.make'))
+            continue
+        for g in range(N):
+            row = mine[g]
+            cg = dict(ca, physical_duct=g)
+            if row[2] != str(g + 1):
+                V.append(violation('table-row-order', cg, 'duct label', row[2], str(g + 1)))
+                continue
+            if g in rmap:
+                fm = face_means([float(x) for x in last['duct'][rmap.index(g)]])
                 for fi in range(6):
                     ok, tol = _num_ok(row[3 + fi], fm[fi], M)
                     if not ok:
-                        V.append(violation('table-duct-face', ca, 'face %d average is not the mean of the final-plane '
+                        V.append(violation('table-duct-face', cg, 'face %d average is not the mean of the final-plane '
                                            'mid-wall temperatures of that face' % (fi + 1), row[3 + fi], fm[fi], tol,
                                            site='table.py:DuctTempTable._get_avg_duct_face_temp'))
                         break
-                exp = [_cell(M, ref.duct[g][0]), _cell(M, ref.duct[g][1])]
-                if [row[9], row[10]] != exp:
-                    if len(rmap) < N:
-                        kind = 'table-duct-slot'
-                        what = ('the final region has %d wall(s), the assembly %d: the row whose face temperatures '
-                                'belong to physical duct %d shows the peak of another duct, and %d duct peak(s) are '
-                                'not reported at all' % (len(rmap), N, g + 1, N - len(rmap)))
-                    else:
-                        kind = 'table-duct-peak'
-                        what = 'peak temperature / height of duct %d is not the recorded maximum' % (g + 1)
-                    V.append(violation(kind, ca, what, [row[9], row[10]], exp, 'print precision %d dp' % M['dp'],
-                                       site='table.py:DuctTempTable.make'))
-                cnt('sweep_checks', 'table_cells_compared', 8)
+            else:
+                num = [x for x in row[3:9] if re.match(r'^-?\d+(\.\d*)?$', x)]
+                if num:
+                    V.append(violation('table-duct-face', cg, 'face temperatures printed for a wall that is absent at '
+                                       'the outlet', row[3:9], 'placeholders', site='table.py:DuctTempTable.make'))
+            if [row[2], row[9], row[10]] != exp_peaks[g]:
+                V.append(violation('table-duct-peak', cg, 'peak temperature / height of duct %d is not the recorded '
+                                   'maximum' % (g + 1), [row[2], row[9], row[10]], exp_peaks[g],
+                                   'print precision %d dp' % M['dp'], site='table.py:DuctTempTable.make'))
+            cnt('sweep_checks', 'table_cells_compared', 8)
     # ---- peak pin tables
     with_pins = [ai for ai in range(nasm) if refs[ai][0].pin is not None]
     for name in ('clad_mw', 'fuel_cl'):
